@@ -297,9 +297,14 @@ C02_IdentsKept(r) ==
            IN special(i - 1) \/ special(i + 1)
 
 ---------------------------------------------------------------------------
-(* C07: verbatim regions (code point ranges <<from, to>> of the input, 0-based half-open) occur in the output *)
+(* C07: verbatim regions (code point ranges <<from, to, open>> of the input, 0-based half-open; open = not closed by an  *)
+(* on-comment) occur in the output                                                                              *)
 
 Occurs(x, s) == \E p \in 1..(Len(s) - Len(x) + 1) : \A k \in 1..Len(x) : s[p + k - 1] = x[k]
 
-C07_RegionsKept(r) == \A i \in 1..Len(r.regions) : Occurs(SubSeq(r.in, r.regions[i][1] + 1, r.regions[i][2]), r.out)
+IsSuffix(x, s) == Len(x) <= Len(s) /\ \A k \in 1..Len(x) : s[Len(s) - Len(x) + k] = x[k]
+\* an unclosed region runs to the end of the input and is the end of the output
+C07_RegionsKept(r) == \A i \in 1..Len(r.regions) :
+   LET x == SubSeq(r.in, r.regions[i][1] + 1, r.regions[i][2]) IN
+   IF r.regions[i][3] THEN IsSuffix(x, r.out) ELSE Occurs(x, r.out)
 =============================================================================
